@@ -91,6 +91,9 @@ func genConfig(t *rapid.T, p profile) harness.Config {
 		c.NoArbitraryUser = chance(t, "noarbuser", 30)
 		c.PlainRegValues = chance(t, "plainregvalues", 30)
 	}
+	if chance(t, "storezone", 25) {
+		c.StoreZoneH = pick(t, "zoneh", 5, -5, 13, -11, 1)
+	}
 	if chance(t, "writerwrap", 25) {
 		c.WriterWrap = pick(t, "wrapkind", "underlying", "unwrap", "unwrap")
 	}
@@ -136,6 +139,7 @@ func genConfig(t *rapid.T, p profile) harness.Config {
 	if c.Has("oauth2") {
 		c.StockDetails = chance(t, "stockdetails", 40)
 		c.ProviderParams = chance(t, "providerparams", 40)
+		c.NumericIDs = c.StockDetails && chance(t, "numericids", 40)
 		c.Providers = []string{"goog", "fb"}[:rapid.IntRange(1, 2).Draw(t, "nprov")]
 	}
 	c.Browsers = rapid.IntRange(p.browsers[0], p.browsers[1]).Draw(t, "browsers")
@@ -269,9 +273,9 @@ var (
 	poolRec = []sc{{"rectok", 50, "own", tokenMuts}, {"rectok", 8, "other", tokenMuts}, {"recsel", 4, "own", nil}, {"recver", 4, "own", nil},
 		{"recraw", 5, "own", nil}, {"splicerec", 8, "own", nil}, {"cnftok", 5, "own", nil}, {"lit", 3, "", nil}, {"empty", 3, "", nil}}
 	poolTOTP = []sc{{"totp", 45, "own", totpMuts}, {"totp", 12, "other", nil}, {"totpprev", 5, "own", nil}, {"totp-2", 6, "own", nil}, {"totp+2", 3, "own", nil}, {"totpsess", 6, "", nil},
-		{"rand6", 10, "", nil}, {"empty", 5, "", nil}, {"smsany", 5, "", nil}, {"lit", 4, "", nil}}
-	poolSMS = []sc{{"sms", 35, "own", nil}, {"sms", 12, "other", nil}, {"smssess", 15, "", nil}, {"smsany", 10, "", nil},
-		{"rand6", 10, "", nil}, {"empty", 4, "", nil}, {"totp", 4, "own", nil}, {"lit", 3, "", nil}}
+		{"rand6", 10, "", nil}, {"empty", 5, "", nil}, {"smsany", 5, "", nil}, {"lit", 4, "", nil}, {"rec", 4, "own", nil}}
+	poolSMS = []sc{{"sms", 35, "own", totpMuts}, {"sms", 12, "other", nil}, {"smssess", 15, "", totpMuts}, {"smsany", 10, "", nil},
+		{"rand6", 10, "", nil}, {"empty", 4, "", nil}, {"totp", 4, "own", nil}, {"lit", 3, "", nil}, {"rec", 5, "own", nil}}
 	poolRecovery = []sc{{"rec", 50, "own", stringMuts}, {"rec", 15, "other", nil}, {"rechash", 8, "own", nil}, {"lit", 5, "", nil}, {"otp", 4, "own", nil}}
 	poolEv       = []sc{{"evtok", 40, "own", []string{"", "", "flip", "trunc"}}, {"evtok", 10, "other", nil}, {"sesstok", 10, "", nil},
 		{"empty", 12, "", nil}, {"absent", 12, "", nil}, {"lit", 6, "", nil}}
@@ -396,7 +400,7 @@ func drawOp(t *rapid.T, kind string, e genEnv) Op {
 				op.SA = rapid.IntRange(0, e.nBrows-1).Draw(t, "statebrowser")
 			}
 		}
-		op.S = pick(t, "code", "code-u1", "code-u1", "code-u2", "code-weird", "code-bad", "code-nodetails")
+		op.S = pick(t, "code", "code-u1", "code-u1", "code-u2", "code-weird", "code-bad", "code-nodetails", "code-n1", "code-n2")
 		op.F = chance(t, "proverr", 10)
 	case "totpvalidate", "totpremove":
 		op.A = rapid.IntRange(0, e.nAcct-1).Draw(t, "acct")
@@ -586,7 +590,7 @@ func drawSnippet(t *rapid.T, name string, e genEnv) []Op {
 		}
 		prov := rapid.IntRange(0, 1).Draw(t, "prov")
 		ops = append(ops, Op{K: "o2start", B: b, N: prov, F: chance(t, "rm", 40), S2: pick(t, "redir", redirPool...)},
-			Op{K: "o2cb", B: b, N: prov, Src: "state", SA: b, S: pick(t, "code", "code-u1", "code-u2", "code-weird")})
+			Op{K: "o2cb", B: b, N: prov, Src: "state", SA: b, S: pick(t, "code", "code-u1", "code-u2", "code-weird", "code-n1", "code-n2")})
 		if chance(t, "replaycb", 40) {
 			ops = append(ops, Op{K: "o2cb", B: rapid.IntRange(0, e.nBrows-1).Draw(t, "b2"), N: prov, Src: "stateold", SA: b, S: "code-u1"})
 		}
@@ -678,6 +682,37 @@ func drawSnippet(t *rapid.T, name string, e genEnv) []Op {
 		ops = append(ops, Op{K: "evstart", B: b, N: k})
 		ops = append(ops, Op{K: pick(t, "leave", "newsess", "logout", "newsess"), B: b})
 		ops = append(ops, Op{K: "evend", B: b, A: a, N: k, Src: "evtok", SA: a})
+	case "evcarry":
+		// one account passes the 2FA e-mail verification; without a logout another account logs in to the same
+		// session and goes for the enrolment routes
+		if !c.Has("auth") || !c.EmailAuth || e.nAcct < 2 {
+			return nil
+		}
+		k := rapid.IntRange(0, 1).Draw(t, "evkind")
+		if chance(t, "firsttwo", 60) {
+			a = rapid.IntRange(0, 1).Draw(t, "first")
+		}
+		a2 := (a + 1) % e.nAcct
+		if a < 2 {
+			a2 = 1 - a
+		}
+		for i, x := range []int{a, a2} {
+			ops = append(ops, Op{K: "login", B: b, A: x, Src: "pw", SA: x})
+			if c.HasSetup("totp") {
+				ops = append(ops, Op{K: "totpvalidate", B: b, A: x, Src: "totp", SA: x})
+			}
+			if c.HasSetup("sms") {
+				ops = append(ops, Op{K: "smsvalidate", B: b, A: x, Src: "smssess"})
+			}
+			if i == 0 {
+				ops = append(ops, Op{K: "evstart", B: b, N: k}, Op{K: "evend", B: b, A: x, N: k, Src: "evtok", SA: x})
+			}
+		}
+		if k == 0 && c.HasSetup("totp") || !c.HasSetup("sms") {
+			ops = append(ops, Op{K: "totpsetup", B: b}, Op{K: "totpconfirm", B: b, A: a2, Src: "totpsess"})
+		} else {
+			ops = append(ops, Op{K: "smssetup", B: b, S: "+15550009"}, Op{K: "smsconfirm", B: b, A: a2, Src: "smssess"})
+		}
 	case "evshare":
 		// two accounts use one browser session one after the other (no logout in between) and both ask for the 2FA verification mail
 		if !c.Has("auth") || !c.EmailAuth || e.nAcct < 2 {
@@ -758,7 +793,12 @@ func drawSnippet(t *rapid.T, name string, e genEnv) []Op {
 		}
 		other := (a + 1) % e.nAcct
 		for i := rapid.IntRange(1, 4).Draw(t, "npokes"); i > 0; i-- {
-			switch pick(t, "poke", "evend-empty", "evend-absent", "evstart-end", "totpsetup", "smssetup-new", "smsremove-sess", "smsremove-own", "totpremove-own", "totpremove-other", "remove-rec", "remove-rec-other", "confirm-sess", "confirm-rec", "confirm-rec", "resend-remove", "advance", "sms-relabel", "sms-relabel") {
+			switch pick(t, "poke", "evend-empty", "evend-absent", "evstart-end", "totpsetup", "smssetup-new", "smsremove-sess", "smsremove-own", "totpremove-own", "totpremove-other", "remove-rec", "remove-rec-other", "confirm-sess", "confirm-rec", "confirm-rec", "resend-remove", "advance", "sms-relabel", "sms-relabel", "totpremove-stale", "totpremove-stale", "totpsetup-stale") {
+			case "totpremove-stale":
+				// a code that stopped being current a period ago, or is not current yet
+				ops = append(ops, Op{K: "totpremove", B: b, A: a, Src: pick(t, "stale", "totp-2", "totp-2", "totp+2"), SA: a})
+			case "totpsetup-stale":
+				ops = append(ops, Op{K: "totpsetup", B: b}, Op{K: "totpconfirm", B: b, A: a, Src: "totpsess-2", SA: a})
 			case "confirm-rec":
 				// an enrolment confirmed with an (own, unused) recovery code instead of the code for the new factor
 				if chance(t, "whichfactor", 50) {
@@ -802,26 +842,79 @@ func drawSnippet(t *rapid.T, name string, e genEnv) []Op {
 				ops = append(ops, Op{K: "advance", N: pick(t, "g", 3, 12)})
 			}
 		}
+	case "switch2fa":
+		// an attacker with an own 2FA account (a2) and the victim's password (a): fully logged in as a2, the victim's
+		// password step is made in the same session, then the attacker's OWN code / recovery code is presented
+		if !c.Has("auth") || e.nAcct < 2 || (!c.HasSetup("totp") && !c.HasSetup("sms")) {
+			return nil
+		}
+		a2 := (a + 1 + rapid.IntRange(0, e.nAcct-2).Draw(t, "attacker")) % e.nAcct
+		ops = append(ops, Op{K: "newsess", B: b}, Op{K: "login", B: b, A: a2, Src: "pw", SA: a2})
+		if c.HasSetup("totp") {
+			ops = append(ops, Op{K: "totpvalidate", B: b, A: a2, Src: "totp", SA: a2})
+		}
+		if c.HasSetup("sms") {
+			ops = append(ops, Op{K: "smsvalidate", B: b, A: a2, Src: "smssess"})
+		}
+		ops = append(ops, login)
+		switch {
+		case c.HasSetup("totp") && (!c.HasSetup("sms") || chance(t, "viatotp", 60)):
+			if chance(t, "userec", 40) {
+				ops = append(ops, Op{K: "totpvalidate", B: b, A: a, Src: "rec", SA: a2, SN: rapid.IntRange(0, 1).Draw(t, "recn"), F: true})
+			} else {
+				ops = append(ops, Op{K: "totpvalidate", B: b, A: a, Src: "totp", SA: a2})
+			}
+		default:
+			if chance(t, "userec", 50) {
+				ops = append(ops, Op{K: "smsvalidate", B: b, A: a, Src: "rec", SA: a2, SN: rapid.IntRange(0, 1).Draw(t, "recn"), F: true})
+			} else {
+				ops = append(ops, Op{K: "advance", N: 12}, Op{K: "smsresend", B: b, S: "validate"}, Op{K: "smsvalidate", B: b, A: a, Src: "smssess"})
+			}
+		}
+		ops = append(ops, Op{K: "visit", B: b, S: pick(t, "route", "/p/none", "/p/2fa", "/p/full")})
 	case "rec2fa":
 		// complete a 2FA login with a recovery code, then replay the same code
 		if !c.Has("auth") || (!c.HasSetup("totp") && !c.HasSetup("sms")) {
 			return nil
 		}
+		// prefer an account that has a factor and recovery codes (a random one rarely does)
+		var elig []int
+		for i, acc := range c.Accounts {
+			if i < e.nAcct && acc.Recovery > 0 && ((acc.TOTP && c.HasSetup("totp")) || (acc.Phone != "" && c.HasSetup("sms"))) {
+				elig = append(elig, i)
+			}
+		}
 		page := "totpvalidate"
 		if !c.HasSetup("totp") || (c.HasSetup("sms") && chance(t, "smspage", 50)) {
 			page = "smsvalidate"
 		}
-		n := rapid.IntRange(0, 2).Draw(t, "recn")
+		nmax := 2
+		if len(elig) > 0 && chance(t, "eligible", 85) {
+			a = elig[rapid.IntRange(0, len(elig)-1).Draw(t, "eligacct")]
+			login = Op{K: "login", B: b, A: a, Src: "pw", SA: a}
+			acc := c.Accounts[a]
+			switch {
+			case acc.TOTP && c.HasSetup("totp") && !(acc.Phone != "" && c.HasSetup("sms") && chance(t, "viasms", 40)):
+				page = "totpvalidate"
+			case acc.Phone != "" && c.HasSetup("sms"):
+				page = "smsvalidate"
+			}
+			nmax = acc.Recovery - 1
+		}
+		n := rapid.IntRange(0, nmax).Draw(t, "recn")
+		if chance(t, "fresh", 70) {
+			ops = append(ops, Op{K: "newsess", B: b}) // somebody else's login left in this browser would be the one the code page acts on
+		}
 		ops = append(ops, login, Op{K: page, B: b, A: a, Src: "rec", SA: a, SN: n, F: true})
-		if chance(t, "reuseforremove", 35) {
-			// ... or present the code that just logged in where a recovery code disables the factor
+		if chance(t, "reuseforremove", 25) {
+			// present the code that just logged in where a recovery code disables the factor ...
 			rm := "totpremove"
 			if !c.HasSetup("totp") || (c.HasSetup("sms") && chance(t, "rmsms", 50)) {
 				rm = "smsremove"
 			}
 			ops = append(ops, Op{K: rm, B: b, A: a, Src: "rec", SA: a, SN: n, F: true})
-		}
-		if chance(t, "replay", 70) {
+		} else if chance(t, "replay", 85) {
+			// ... or log in with it once more
 			ops = append(ops, Op{K: "newsess", B: b}, login, Op{K: page, B: b, A: a, Src: "rec", SA: a, SN: n, F: true})
 		}
 		if chance(t, "smsreplay", 40) && c.HasSetup("sms") {
@@ -965,7 +1058,11 @@ func drawSnippet(t *rapid.T, name string, e genEnv) []Op {
 		}
 		switch {
 		case c.Has("lock") && (!c.Has("confirm") || chance(t, "lockorconf", 50)):
-			ops = append(ops, Op{K: pick(t, "lk", "lock", "lock", "unlock"), A: a}, Op{K: "visit", B: b, S: "/p/lock"})
+			ops = append(ops, Op{K: pick(t, "lk", "lock", "lock", "unlock"), A: a}, Op{K: "visit", B: b, S: pick(t, "lockroute", "/p/lock", "/p/lock", "/q/lock")})
+			if chance(t, "hiccup", 25) {
+				// the middleware's own user lookup meets a storage error
+				ops = append(ops, Op{K: "visit", B: b, S: "/q/lock", FN: "Load"})
+			}
 			if chance(t, "expire", 30) {
 				ops = append(ops, Op{K: "advance", N: pick(t, "lgap", 20, 45, 700, 50000)}, Op{K: "visit", B: b, S: "/p/lock"})
 			}
@@ -973,7 +1070,10 @@ func drawSnippet(t *rapid.T, name string, e genEnv) []Op {
 			if chance(t, "re", 70) {
 				ops = append(ops, Op{K: "reconfirm", A: a})
 			}
-			ops = append(ops, Op{K: "visit", B: b, S: "/p/confirm"})
+			ops = append(ops, Op{K: "visit", B: b, S: pick(t, "confroute", "/p/confirm", "/p/confirm", "/q/confirm")})
+			if chance(t, "hiccup", 25) {
+				ops = append(ops, Op{K: "visit", B: b, S: "/q/confirm", FN: "Load"})
+			}
 		}
 	case "lockmid2fa":
 		if !c.Has("auth") || !c.Has("lock") {
